@@ -342,17 +342,19 @@ Qed.
 Lemma entry_props c e : cs_inv c ->
   exists c1 cid x, entry_entity c e = Some (c1, cid) /\ cs_inv c1 /\ get_cent c1 cid = Some x /\ ce_alive x = true /\
     al_get e (cl_s2c c1) = Some cid /\ map fst (ce_comps x) = cs_kinds c e /\
-    (forall e', e' <> e -> cs_get c1 e' = cs_get c e').
+    (forall e', e' <> e -> cs_get c1 e' = cs_get c e') /\
+    (forall e' cid', al_get e' (cl_s2c c) = Some cid' -> al_get e' (cl_s2c c1) = Some cid') /\
+    (forall cid' y, get_cent c cid' = Some y -> get_cent c1 cid' = Some y).
 Proof.
   intros Hinv. destruct (al_get e (cl_s2c c)) as [cid|] eqn:E.
   - destruct (ci_mapped c Hinv e cid E) as [x [Hx Ha]]. exists c, cid, x.
     split; [unfold entry_entity, alive; rewrite E, Hx, Ha; reflexivity|].
     split; [exact Hinv|]. split; [exact Hx|]. split; [exact Ha|]. split; [exact E|].
     split; [exact (cs_kinds_mapped c e cid x Hinv E Hx Ha)|auto].
-  - destruct (spawn_vacant_props c e true Hinv E) as (H1 & _ & H3 & H4 & _ & H6 & _ & _ & _).
+  - destruct (spawn_vacant_props c e true Hinv E) as (H1 & H2 & H3 & H4 & H5 & H6 & _ & _ & _).
     eexists _, (cl_next c), _. split; [unfold entry_entity; rewrite E; reflexivity|].
     split; [exact H1|]. split; [exact H3|]. split; [reflexivity|]. split; [exact H4|].
-    split; [|exact H6]. unfold cs_kinds. rewrite (cs_get_unmapped c e E). reflexivity.
+    split; [|split; [exact H6|split; [exact H5|exact H2]]]. unfold cs_kinds. rewrite (cs_get_unmapped c e E). reflexivity.
 Qed.
 
 (* ================================================================== *)
@@ -371,7 +373,7 @@ Lemma removal_step c S T r0 r : cs_inv c -> srel c S ->
   exists c', r = Continue c' /\ cs_inv c' /\ srel c' (abs_removal S r0).
 Proof.
   intros Hinv Hrel H. destruct r0 as [e ks]. cbn [fst snd] in H.
-  destruct (entry_props c e Hinv) as (c1 & cid & x & He & Hinv1 & Hx & Ha & Hs & Hk & Hoth).
+  destruct (entry_props c e Hinv) as (c1 & cid & x & He & Hinv1 & Hx & Ha & Hs & Hk & Hoth & _ & _).
   unfold apply_removals in H. rewrite He, Hx in H. apply bind_ok in H. destruct H as [x1 [E1 H]].
   inversion H; subst r. clear H. eexists. split; [reflexivity|].
   apply confirm_tick_fields in E1. cbn [with_marker ce_alive ce_pre ce_marker ce_comps ce_hist] in E1.
@@ -487,7 +489,7 @@ Lemma change_step c S T ch r : cs_inv c -> srel c S ->
   exists c', r = Continue c' /\ cs_inv c' /\ srel c' (abs_change S ch).
 Proof.
   intros Hinv Hrel H. destruct ch as [e comps]. cbn [fst snd] in H.
-  destruct (entry_props c e Hinv) as (c1 & cid & x & He & Hinv1 & Hx & Ha & Hs & Hk & Hoth).
+  destruct (entry_props c e Hinv) as (c1 & cid & x & He & Hinv1 & Hx & Ha & Hs & Hk & Hoth & _ & _).
   unfold apply_changes in H. rewrite He, Hx in H. apply bind_ok in H. destruct H as [x1 [E1 H]].
   inversion H; subst r. clear H. eexists. split; [reflexivity|].
   apply confirm_tick_fields in E1. cbn [with_marker ce_alive ce_pre ce_marker ce_comps ce_hist] in E1.
@@ -1117,3 +1119,30 @@ Proof.
   destruct Hsb as [B1 B2]. rewrite mutate_messages_empty in E by (cbn; rewrite B1, B2, Hm, Hb; reflexivity).
   inversion E; subst c2. cbn. auto.
 Qed.
+
+(* ---------- lists ---------- *)
+
+Lemma last_snoc {A} (l : list A) a d : last (l ++ [a]) d = a.
+Proof. induction l as [|b t IH]; [reflexivity|]. cbn [app]. destruct (t ++ [a]) eqn:E; [destruct t; discriminate|]. exact IH. Qed.
+
+Lemma last_app_ne {A} (l1 l2 : list A) d : l2 <> [] -> last (l1 ++ l2) d = last l2 d.
+Proof.
+  intros Hne. induction l1 as [|b t IH]; [reflexivity|]. cbn [app]. destruct (t ++ l2) eqn:E.
+  - destruct t; [cbn in E; congruence|discriminate].
+  - exact IH.
+Qed.
+
+Lemma last_map {A B} (f : A -> B) l d : l <> [] -> forall d', last (map f l) d' = f (last l d).
+Proof.
+  intros Hne d'. induction l as [|a t IH]; [congruence|]. destruct t as [|b t']; [reflexivity|].
+  cbn [map last] in *. apply IH. discriminate.
+Qed.
+
+Lemma app_snoc_split {A} (p q l : list A) u : p ++ q = l ++ [u] ->
+  (q = [] /\ p = l ++ [u]) \/ exists q', q = q' ++ [u] /\ l = p ++ q'.
+Proof.
+  intros H. induction q as [|x q' _] using rev_ind.
+  - left. rewrite app_nil_r in H. auto.
+  - right. rewrite app_assoc in H. apply app_inj_tail in H. destruct H as [H1 ->]. exists q'. auto.
+Qed.
+
